@@ -2009,7 +2009,7 @@ class FatFile(io.RawIOBase):
                 # We start by marking the new end cluster, which atomically
                 # shortens the FAT chain for the file, then proceed to mark all
                 # the removed clusters as free
-                to_remove = self._map[len(self._map) - clusters:]
+                to_remove = self._map[clusters:]
                 fs.fat.mark_end(self._map[clusters - 1])
                 del self._map[clusters:]
                 for cluster in to_remove:
